@@ -190,7 +190,7 @@ fn gen_kind(rng: &mut Rng, p: &Profile) -> Kind {
     match rng.weighted(&p.kinds) {
         0 => Kind::Ping,
         1 => Kind::Chan { bound: None },
-        2 => Kind::Chan { bound: Some(*rng.pick(&[1u8, 2, 8])) },
+        2 => Kind::Chan { bound: Some(*rng.pick(&[1u8, 2, 8, 255])) },
         3 => Kind::Timer { dl: *rng.pick(&p.timer_dls) },
         4 => {
             let fd = *rng.pick(&[FdKind::Pipe, FdKind::Eventfd, FdKind::Socket]);
@@ -229,7 +229,9 @@ fn gen_cause(rng: &mut Rng, p: &Profile, incb: bool) -> Op {
     let sel = gen_live_sel(rng, p, incb);
     let c = rng.below(6) as u8;
     match rng.weighted(&[8, 6, 10, 3, 2, 2, 3, 3, 3, 2, 1]) {
+        0 if p.name == "C05" && rng.chance(1, 4) => Op::Wakeup,
         0 => Op::Ping(sel),
+        1 if p.name == "C02" && rng.chance(1, 12) => Op::SendBurst(sel),
         1 => Op::Send(sel),
         2 => Op::WriteFd(sel, c),
         3 => Op::DrainFd(sel, c),
@@ -439,7 +441,8 @@ pub fn gen_history(rng: &mut Rng, p: &Profile) -> History {
                 if p.outside[12] > 0 && rng.chance(1, 8) {
                     steps.push(Step::DispatchNone);
                 } else {
-                    steps.push(Step::Dispatch(if rng.chance(1, 8) { rng.range(1, 6) as u16 } else { 0 }));
+                    let nz = if p.name == "C05" { 3 } else { 8 };
+                    steps.push(Step::Dispatch(if rng.chance(1, nz) { rng.range(1, 12) as u16 } else { 0 }));
                 }
             }
             7 => steps.push(Step::Sleep(rng.range(1, 8) as u16)),
